@@ -146,18 +146,23 @@ def func_nodes(ctx, tok) -> list:
     raise AnalysisError(f'table value {tok!r} is not a function')
 
 
-def flows_into(fn_node, sink_name: str, param: str | None = None) -> set[str]:
+def flows_into(fn_node, sink_name: str, param: str | None = None, helpers: dict | None = None, _whole_params: bool = False, _depth: int = 0) -> set[str]:
     """Fields of <param> whose value (or an alias / slice / reversed copy / element of it) is appended / extended /
-    listed into variable `sink_name`, or returned in a list display.  Flow-insensitive alias closure."""
+    listed into variable `sink_name`, or returned in a list display.  Flow-insensitive alias closure.  `helpers` ({name: FunctionDef} of
+    plain module-level functions): a statement `helper(sink, e1, e2)` that hands the sink list to a worker contributes the arguments whose
+    parameters the worker puts into that list (the interleaving written once for two classes)."""
     param = param or _param0(fn_node)
     alias: dict[str, set[str]] = {}
+    own_params = {a.arg for a in fn_node.args.posonlyargs + fn_node.args.args + fn_node.args.kwonlyargs} if _whole_params else set()
 
     def srcs(e) -> set[str]:
         out = set()
         for x in ast.walk(e):
-            if isinstance(x, ast.Attribute) and isinstance(x.value, ast.Name) and x.value.id == param:
+            if isinstance(x, ast.Attribute) and isinstance(x.value, ast.Name) and x.value.id == param and not _whole_params:
                 out.add(x.attr)
-            elif isinstance(x, ast.Name) and x.id in alias:
+            elif isinstance(x, ast.Name) and x.id in own_params and x.id != sink_name:
+                out.add(x.id)
+            if isinstance(x, ast.Name) and x.id in alias:
                 out |= alias[x.id]
         return out
 
@@ -200,6 +205,17 @@ def flows_into(fn_node, sink_name: str, param: str | None = None) -> set[str]:
                 out |= srcs(n.value)
         elif isinstance(n, ast.Return) and isinstance(n.value, (ast.List, ast.ListComp, ast.BinOp)):
             out |= srcs(n.value)           # the sequence is built in the return expression itself, no sink variable
+        if helpers and _depth < 2 and isinstance(n, ast.Call) and isinstance(n.func, ast.Name) and n.func.id in helpers and \
+                not any(isinstance(a, ast.Starred) for a in n.args):
+            h = helpers[n.func.id]
+            hp = [a.arg for a in h.args.posonlyargs + h.args.args]
+            given = dict(zip(hp, n.args))
+            given.update({k.arg: k.value for k in n.keywords if k.arg})
+            for sp, sv in given.items():
+                if isinstance(sv, ast.Name) and sv.id == sink_name:
+                    for q in flows_into(h, sp, sp, helpers, True, _depth + 1):
+                        if q in given:
+                            out |= srcs(given[q])
     return out
 
 
